@@ -135,7 +135,7 @@ sys.exit(0)
 """
 
 
-def sizes_feasibility(rep: report.Report, coeffs: List[Tuple]) -> None:
+def sizes_feasibility(rep: report.Report, coeffs: List[Tuple], emit: Any = None) -> None:
     """The statement of C04 itself, on the shipped named units: per dimension, do sizes s_u > 0 exist
     with every conversion factor the library applies within tolerance of s_a / s_b?  The factors
     k_ab come from the symbolic runs of the real convert (result = k_ab * m for every m); existence
@@ -192,10 +192,14 @@ def sizes_feasibility(rep: report.Report, coeffs: List[Tuple]) -> None:
                 sig = f"C04:sizes:{dim}:" + "|".join(culprits)
             else:
                 sig = f"C04:sizes:{dim}:" + ",".join(involved)
-            rep.violation(sig,
-                          f"no sizes of {involved} reconcile the factors the library applies: " +
-                          "; ".join(f"1 {c[1]} = {c[5] / c[6]!r} {c[2]}" for c in core[:6]),
-                          families.REPLAY_IMPORTS + SIZES_REPLAY.format(pairs=[(c[3], c[4], c[7]) for c in core]))
+            if emit is not None:
+                # another property's reading of the same fact (C12: order against physical values)
+                emit(rep, dim, culprits or involved, core, cs)
+            else:
+                rep.violation(sig,
+                              f"no sizes of {involved} reconcile the factors the library applies: " +
+                              "; ".join(f"1 {c[1]} = {c[5] / c[6]!r} {c[2]}" for c in core[:6]),
+                              families.REPLAY_IMPORTS + SIZES_REPLAY.format(pairs=[(c[3], c[4], c[7]) for c in core]))
             if culprits:
                 live = [c for c in live if not (set(culprits) & {c[1], c[2]})]
             else:
@@ -247,6 +251,15 @@ def worker(task: Tuple) -> Dict[str, Any]:
     return acc.finish()
 
 
+def named_coefficients() -> List[Tuple]:
+    """(dimension, source, target, source code, target code, numerator, denominator, tolerance) of the
+    factor the real convert applies, for every ordered pair of named offset-free units."""
+    families.boot()
+    items = [(s, d, "float") for (s, d) in cc.named_pair_specs()]
+    results = par.run("props.c04", "worker", [("named", ch) for ch in par.chunks(items, 32)])
+    return [c for r in results for c in r.get("coeffs", [])]
+
+
 def tasks_for(tier: str, seed: int = 0) -> List[Tuple]:
     families.boot()
     named = cc.named_pair_specs()
@@ -260,7 +273,8 @@ def tasks_for(tier: str, seed: int = 0) -> List[Tuple]:
         comp = cc.compound_pair_specs(4, core_only=True, limit=12000, seed=1) + \
             cc.compound_pair_specs(2, core_only=False, limit=6000, seed=2)
     powers = cc.power_pair_specs((2, 3, -1, -2) if tier == "thorough" else (2, -1), 0 if tier == "thorough" else 14)
-    citems = [(s, d, "float") for (s, d) in comp + powers]
+    cancelling = cc.cancelling_pair_specs(5 if tier == "quick" else 12)
+    citems = [(s, d, "float") for (s, d) in comp + powers + cancelling]
     tasks: List[Tuple] = [("named", ch) for ch in par.chunks(families.shuffled(items, seed), 32)]
     tasks += [("compound", ch) for ch in par.chunks(families.shuffled(citems, seed), 32)]
     return tasks
